@@ -239,6 +239,20 @@ def r4(R, repo):
   fp = mod.func(astu.src(astu.kwarg(pi, 'flatten')))
   ok, why = _flatten_returns_sorted(fp, R, None, None)
   R.judge(ok is not None, ok, key_of(fp, 'generic pytree flatten in sorted key order'), fp, '_flatten_pytree %s' % why)
+  # key_index records the *original* child order: it must be computed before / independently of the sort
+  cfp = cfg_of(fp)
+  ki = [n for n in cfp.nodes if isinstance(n.stmt, ast.Assign) and astu.src(n.stmt.targets[0]) == 'key_index']
+  key = key_of(fp, 'key_index records the original (unsorted) child order')
+  if len(ki) == 1:
+    enum = [x for x in ast.walk(ki[0].stmt.value) if isinstance(x, ast.Call) and astu.call_name(x) == 'enumerate' and x.args]
+    srcs = [e_ for x in enum for e_ in evid.expand(fp, x.args[0]) if isinstance(e_, ast.AST)]
+    sorted_src = [e_ for e_ in srcs if isinstance(e_, ast.Call) and astu.call_name(e_) == 'sorted']
+    sort_nodes = [n for n in cfp.nodes if n.kind == 'stmt' and any(isinstance(x, ast.Call) and astu.call_tail(x) == 'sort' and isinstance(x.func, ast.Attribute) and enum and astu.src(x.func.value) == astu.src(enum[0].args[0]) for x in ast.walk(n.stmt))]
+    after_sort = any(ki[0] in cfp.reach([sn]) for sn in sort_nodes)
+    R.judge(bool(enum), not sorted_src and not after_sort, key, (fp, ki[0].stmt), '_flatten_pytree computes key_index from the already sorted children (`%s`): _unflatten_pytree then re-orders by an identity permutation and hands the '
+            'children to treedef.unflatten in alphabetical instead of field order, so fields of a NamedTuple / dataclass are silently permuted' % astu.short(ki[0].stmt))
+  else:
+    R.unsure(key, fp, 'key_index assignment not found in _flatten_pytree')
   up = mod.func('_unflatten_pytree')
   R.check("sorted(nodes, key=lambda x: metadata.key_index[x[0]])" in astu.src(up.node), key_of(up, 'restores the original child order from key_index'), up, '_unflatten_pytree must put the children back in the original order recorded in key_index')
   for m in repo.mods_with('_graph_node_flatten'):
@@ -345,6 +359,52 @@ def r8(R, repo):
   R.check('flatten(node)' in astu.src(st.node) and 'flat_state.to_nested_state()' in astu.src(st.node), key_of(st, 'state from flatten(node)'), st, 'state must list the Variables found by flatten(node) (each once, under its first path, in sorted order)')
 
 
+def check_index_truthiness(R, repo):
+  """An index (an int that is legitimately 0 for the first object) is compared with None / looked up by membership, never
+  tested for truth (shared with C04)."""
+  mod = repo.mod(GR)
+  int_fields = set()
+  for cls in mod.classes.values():
+    for st in cls.body:
+      if isinstance(st, ast.AnnAssign) and isinstance(st.target, ast.Name) and 'index' in st.target.id and 'int' in astu.src(st.annotation):
+        int_fields.add(st.target.id)
+  R.require(len(int_fields) >= 2, 'index fields of the graph definitions not found')
+  int_maps = lambda e: (astu.dotted(e) or '').split('.')[-1] in ('ref_index', 'ref_outer_index', 'inner_ref_outer_index', 'id_to_index', 'new_ref_index')
+
+  def index_valued(e, f, depth=0):
+    if isinstance(e, ast.NamedExpr):
+      return index_valued(e.value, f, depth)
+    if isinstance(e, ast.Attribute) and e.attr in int_fields:
+      return True
+    if isinstance(e, ast.Call) and astu.call_tail(e) == 'get' and isinstance(e.func, ast.Attribute) and int_maps(e.func.value):
+      return True
+    if isinstance(e, ast.Subscript) and int_maps(e.value):
+      return True
+    if isinstance(e, ast.Name) and depth < 2:
+      ds = [d[0] for d in flow.defs(f, e.id) if isinstance(d[0], ast.AST)]
+      return bool(ds) and all(index_valued(d, f, depth + 1) for d in ds)
+    return False
+  n = 0
+  for q, f in mod.funcs.items():
+    for cond, node in evid.conditions(f.node):
+      for e in evid.truthiness_operands(cond):
+        if isinstance(e, (ast.Compare, ast.Call)) and not (isinstance(e, ast.Call) and astu.call_tail(e) == 'get'):
+          continue
+        if index_valued(e, f):
+          R.fail(key_of(f, 'index tested for truth', astu.short(e, 60)), (f, node), '`%s` is an index (0 for the first object encountered) but is tested for truth in `%s`: object number 0 - the root module, '
+                 'the first shared Variable - is treated as absent, so its sharing / identity is lost' % (astu.short(e, 60), astu.short(cond, 100)))
+    for x in ast.walk(f.node):
+      if isinstance(x, (ast.Attribute, ast.Subscript, ast.Call)) and index_valued(x, f):
+        n += 1
+  R.require(n >= 20, 'expected >= 20 index-valued expressions in graph.py, found %d' % n)
+  R.ok(key_of(mod.rel, 'index-valued expressions examined'), mod, '%d index-valued expressions, none tested for truth' % n)
+
+
+@rule('C03.R9', 'K12', 1, 'indices (0 is a valid index) are never tested for truth')
+def r9(R, repo):
+  check_index_truthiness(R, repo)
+
+
 meta('C03',
      explanation='Writer/reader agreement of attribute kinds and of leaf production/consumption between _graph_flatten and _graph_unflatten, register-before-recurse dominance for cycles, '
      'a truth table over node kinds showing that every kind entered into ref_index is also looked up (sharing), the sorted-traversal obligation of every registered node implementation and '
@@ -359,5 +419,7 @@ meta('C03',
          Mutant('C03-m6', OB, "    nodes = vars(self).copy()\n    nodes = sorted(nodes.items())\n    return nodes, type(self)", "    nodes = list(vars(self).items())\n    return nodes, type(self)", 'C03.R4'),
          Mutant('C03-m7', GR, "        id_to_index[id(value)] = len(id_to_index)\n        node_impl.pop_key(node, name)\n        if isinstance(value, Variable):\n          value = value.to_state()\n        state[node_path] = value  # type: ignore[index] # mypy is wrong here?\n        break",
                 "        id_to_index[id(value)] = len(id_to_index)\n        node_impl.pop_key(node, name)\n        if isinstance(value, Variable):\n          value = value.to_state()\n        state[node_path] = value  # type: ignore[index] # mypy is wrong here?", 'C03.R6'),
+         Mutant('C03-m8', GR, "  if not is_pytree_node_ and node in ref_index:\n    return NodeRef(type(node), ref_index[node])", "  if not is_pytree_node_ and (index := ref_index.get(node)):\n    return NodeRef(type(node), index)", 'C03.R9', why='seed C03-C (round 2)'),
+         Mutant('C03-m9', GR, "  nodes = [(_key_path_to_key(path[0]), value) for path, value in leaves]\n", "  nodes = sorted((_key_path_to_key(path[0]), value) for path, value in leaves)\n", 'C03.R4', why='seed C03-D (round 2)'),
          Mutant('C03-b1', GR, "  flat_state.sort()\n  return [value for _, value in flat_state]", "  flat_state = sorted(flat_state)\n  return [value for _, value in flat_state]", kind='benign'),
      ])
